@@ -53,7 +53,9 @@ pub fn host_configs(layout: &Layout, seed: AddrSeed) -> Vec<RuntimeConfig> {
             let c = 1 + (seed.job % 250);
             // concurrent `vrun check` processes (e.g. a background sweep) get disjoint port ranges
             let run_id: u64 = std::env::var("VERIF_RUN_ID").ok().and_then(|s| s.parse().ok()).unwrap_or(0) % 12;
-            let base_port = (24000 + run_id * 3300 + ((seed.job / 250) * 211 % 3000)) as u16;
+            // below the ephemeral port range (32768..), so that the listeners never compete with the
+            // source ports of outgoing connections
+            let base_port = (2100 + run_id * 2500 + ((seed.job / 250) * 211 % 2200)) as u16;
             let hosts: Vec<HostConfig> = cores
                 .iter()
                 .enumerate()
